@@ -111,7 +111,7 @@ def run(ck):
             val = simp(read_path(it, env, f, "value"))
             R.check_field_bits(ck, it, val, data_bits_be("raw", 0, 8 * n), "UnsignedByteField.value setter", f"after field.value = octets: value == big-endian first {n} octets ({tag})", rule="P-MUST")
             st, m = D.prove(env.facts[nf:], binop(">=", length(raw), C(n)))
-            ck.verdict("G-RANGE", "UnsignedByteField._verify_bytes_value", f"octet strings shorter than {n} are refused ({tag})", [] if st == "proved" else [f"{st}: {m}"], "guard")
+            ck.verdict3("G-RANGE", "UnsignedByteField._verify_bytes_value", f"octet strings shorter than {n} are refused ({tag})", st, m, "guard")
             D.check_escape(ck, it, f"UnsignedByteField [{tag}]")
         # from octets
         for how in ("from_bytes generator", "subclass classmethod", "UnsignedByteField.from_bytes"):
@@ -145,7 +145,7 @@ def run(ck):
             R.check_pack_layout(ck, it, env, as_bcat(simp(read_path(it, env, f, "as_bytes"))), [F("v", 8 * n)], fn, f"octet view re-encodes the decoded value in {n} octets ({tag})",
                                 extra_widths={}, rule="W-PACK") if False else None
             st, m = D.prove(env.facts, binop(">=", length(stream), C(n)))
-            ck.verdict("G-RANGE", fn, f"octet strings shorter than {n} are refused ({tag})", [] if st == "proved" else [f"{st}: {m}"], "guard")
+            ck.verdict3("G-RANGE", fn, f"octet strings shorter than {n} are refused ({tag})", st, m, "guard")
             D.check_xbuf(ck, it, f"{fn} [{n}]")
             D.check_escape(ck, it, f"{fn} [{n}]")
             D.check_independent(ck, it, env, f, "stream", f"{fn} [{n}]")
@@ -167,7 +167,7 @@ def run(ck):
         g = binop("==", bl, C(k))
         goal = g if goal is None else binop("or", goal, g)
     st, m = D.prove(env.facts, goal)
-    ck.verdict("G-RANGE", "UnsignedByteField.verify_byte_len", "accepted widths are exactly {0,1,2,4,8}", [] if st == "proved" else [f"{st}: {m}"], "membership fact")
+    ck.verdict3("G-RANGE", "UnsignedByteField.verify_byte_len", "accepted widths are exactly {0,1,2,4,8}", st, m, "membership fact")
     for k in (0, 1, 2, 4, 8):
         it2 = new_interp(P); env2 = Env()
         it2.call_func(P.func(f"{U}.UnsignedByteField.verify_byte_len"), [], dict(byte_len=C(k)), env2)
@@ -215,7 +215,7 @@ def run(ck):
             ck.verdict("W-PACK", f"IntByteConversion.{name}", f"{n} octets: struct.pack({table[n]!r}, value) with the bare value", [] if ok else [show(r)[:80]], show(r)[:60])
             if name == "to_unsigned":
                 st, m = D.prove(env.facts, binop("<=", v, C(2 ** (8 * n) - 1)))
-                ck.verdict("G-RANGE", f"IntByteConversion.{name}", f"{n} octets: values above {2 ** (8 * n) - 1:#x} are refused with ValueError", [] if st == "proved" else [f"{st}: {m}"], "guard")
+                ck.verdict3("G-RANGE", f"IntByteConversion.{name}", f"{n} octets: values above {2 ** (8 * n) - 1:#x} are refused with ValueError", st, m, "guard")
             else:
                 lim = 2 ** (8 * n - 1) - 1
                 guard = [f for f in env.facts if "abs" in show(f)]
